@@ -844,7 +844,7 @@ def gen_random_case(rng, maxlen, xlink=False, scenario=None):
 
 
 def generate(rng, tier):
-    n, maxlen = (500, 40) if tier == "quick" else (8000, 80)
+    n, maxlen = (1600, 40) if tier == "quick" else (15000, 70)
     for i in range(n):
         yield gen_random_case(rng, maxlen, xlink=(i % 5 == 4), scenario=(i // 2 if i % 2 else None))
 
@@ -1376,6 +1376,7 @@ class Oracle(object):
         containers on the walk, and the font's dispatcher.
     S2 (removed): an object that was listed in a container before an operation and is not listed in it
         after it has been removed/replaced; while it is listed nowhere its accessors return nothing.
+    S2b (taken along): an object that is not reachable from any font names no layer, layer set, font, dispatcher.
     S3 (inert): a change of an object reaches no FORMER container (one that contained it once,
         directly or indirectly, and does not now): no notification is sent by it, its dirty flag stays.
     S4 (re-insert): inserting an object that no container owns is accepted.
@@ -1484,6 +1485,17 @@ class Oracle(object):
             for name, a in zip(["glyph", "layer", "layerSet", "font", "getParent", "dispatcher"], acc):
                 if a is not None:
                     self.report("removed-still-answers", "%s.%s/after-%s" % (w.kind[x], name, k), obj=x, observed=a)
+        # S2b: what a removed container took with it (a deleted glyph's contours ...) is not in the font any more:
+        # it must not name a layer, layer set, font or dispatcher (its `glyph` may still be the removed glyph)
+        for x in sorted(w.objs):
+            if x in reach or x in self.removed and x not in listed or w.kind[x] == "font":
+                continue
+            if not self.former.get(x):
+                continue
+            acc = w.accessors(x)
+            for name, a in zip(["layer", "layerSet", "font", "dispatcher"], [acc[1], acc[2], acc[3], acc[5]]):
+                if a is not None:
+                    self.report("unreachable-answers", "%s.%s/after-%s" % (w.kind[x], name, k), obj=x, observed=a)
         # S5 --------------------------------------------------------------------------------
         alive = set(reach)
         for n in w.objs:
